@@ -96,9 +96,17 @@ func parseString(filename string, input antlr.CharStream) (tree parser.ISysl_fil
 // an importer that follows references to other files ($ref: other.yaml#/definitions/X in a Swagger file) reads them
 // from it, so that they resolve under the root like imports do and not against the working directory of the process on
 // the bare disk.
-func importForeign(def importDef, input antlr.CharStream, fs afero.Fs) (antlr.CharStream, error) {
+func importForeign(def importDef, input antlr.CharStream, fs afero.Fs) (out antlr.CharStream, err error) {
 	logger := logrus.StandardLogger()
 	fileName, _ := mod.ExtractVersion(def.filename)
+	defer func() {
+		// The converters are written for well-formed documents and can panic on a malformed one (a Swagger file cut
+		// off after a mapping key leaves a null where an object is expected). That is an error of this file; as the
+		// conversion runs in a goroutine of its own, an unrecovered panic would end the whole process instead.
+		if r := recover(); r != nil {
+			out, err = nil, syslutil.Exitf(ParseError, "%s", fmt.Sprintf("%s has unknown format: %v", fileName, r))
+		}
+	}()
 	file := input.GetText(0, input.Size())
 	fileType, err := detectFileType(fileName, []byte(file))
 	if err != nil {
